@@ -9,6 +9,7 @@ import (
 	"strconv"
 	"strings"
 	"sync"
+	"time"
 
 	"google.golang.org/grpc"
 	"google.golang.org/grpc/codes"
@@ -49,6 +50,30 @@ type childPlan struct {
 	Reuse         bool          // stream: every message handed out is overwritten once the handler has passed it on (at the next Recv)
 	Scribble      proto.Message // what a reused message is overwritten with
 	Yield         bool          // stream: yield the processor before each Recv returns (the receiver gets to its receive first)
+	// a device that PARKS until the call's context ends (the caller goes away while the handler is running)
+	ParkAt   string        // "": never; "h": inside Header() (nothing sent yet); "r<k>": inside the Recv after k messages; "u": unary, after staging / sending its header
+	Parked   chan struct{} // closed when the device parks
+	Left     chan struct{} // closed when the device has left the park
+	LeftBy   string        // "ctx": its context ended; "timeout": nobody cancelled it
+	parkOnce sync.Once
+}
+
+// park blocks until the call's context has ended and returns what a gRPC client stream returns then.
+func (p *childPlan) park(ctx context.Context) (err error) {
+	err = status.Error(codes.Internal, "parked twice")
+	p.parkOnce.Do(func() {
+		close(p.Parked)
+		defer close(p.Left)
+		select {
+		case <-ctx.Done():
+			p.LeftBy = "ctx"
+			err = status.FromContextError(ctx.Err()).Err()
+		case <-time.After(8 * time.Second):
+			p.LeftBy = "timeout"
+			err = status.Error(codes.Internal, "the device was never cancelled")
+		}
+	})
+	return err
 }
 
 // stage does what a handler does with its context when the call arrives.
@@ -86,6 +111,32 @@ func (r *recorder) record(c call) {
 	r.mu.Unlock()
 }
 
+// endCtx is a context the harness ends by hand: as cancelled, or as past its deadline.
+type endCtx struct {
+	context.Context
+	done chan struct{}
+	mu   sync.Mutex
+	err  error
+}
+
+func newEndCtx(parent context.Context) *endCtx {
+	return &endCtx{Context: parent, done: make(chan struct{})}
+}
+func (c *endCtx) Done() <-chan struct{} { return c.done }
+func (c *endCtx) Err() error {
+	c.mu.Lock()
+	defer c.mu.Unlock()
+	return c.err
+}
+func (c *endCtx) end(err error) {
+	c.mu.Lock()
+	defer c.mu.Unlock()
+	if c.err == nil {
+		c.err = err
+		close(c.done)
+	}
+}
+
 // fakeConn is the grpc.ClientConnInterface behind one fake client (one per registered name).
 type fakeConn struct {
 	id  int
@@ -106,6 +157,9 @@ func (c *fakeConn) Invoke(ctx context.Context, method string, args, reply any, _
 	p.stage(ctx)
 	if p.USent != nil {
 		_ = grpc.SendHeader(ctx, p.USent)
+	}
+	if p.ParkAt == "u" {
+		return p.park(ctx)
 	}
 	if p.Err != nil {
 		return p.Err
@@ -142,6 +196,9 @@ type fakeClientStream struct {
 
 func (s *fakeClientStream) Header() (metadata.MD, error) {
 	s.conn.rec.event("ch")
+	if s.plan.ParkAt == "h" {
+		return nil, s.plan.park(s.ctx)
+	}
 	if s.plan.HeaderErr != nil {
 		return nil, s.plan.HeaderErr
 	}
@@ -182,6 +239,9 @@ func (s *fakeClientStream) RecvMsg(m any) error {
 	}
 	if s.plan.Yield {
 		runtime.Gosched()
+	}
+	if s.plan.ParkAt == "r"+strconv.Itoa(s.next) {
+		return s.plan.park(s.ctx)
 	}
 	if s.next < len(s.plan.Msgs) {
 		msg := s.plan.Msgs[s.next]
